@@ -494,3 +494,20 @@ Definition has_key (k : str) (keys : list str) : bool := existsb (str_eqb k) key
 Definition forbid_valid (names keys : list str) : bool := negb (forallb (fun n => has_key n keys) names).
 Definition sends_no_readonly (names keys : list str) : bool := negb (existsb (fun n => has_key n keys) names).
 Definition readonly_le1 (names : list str) : bool := match names with [_] => true | _ => false end.
+
+(* converter.py:57-71 rewrite_properties as a whole, read through Draft 4 on the KEY SET of an object
+   (property values assumed valid): the read-only names ro are deleted from properties, each one is removed from
+   required (list.remove; required has no duplicates), not: {required: ro} is added when ro is non-empty;
+   additionalProperties: false (closed) then only admits the remaining property names. *)
+Definition remove_names (ro l : list str) : list str := filter (fun r => negb (has_key r ro)) l.
+Definition subset_keys (l keys : list str) : bool := forallb (fun r => has_key r keys) l.
+Definition converted_accepts (props required ro : list str) (closed : bool) (keys : list str) : bool :=
+  subset_keys (remove_names ro required) keys
+  && (match ro with [] => true | _ => forbid_valid ro keys end)
+  && (negb closed || subset_keys keys (remove_names ro props)).
+(* what OpenAPI asks of a request: required writable properties present, no read-only property sent *)
+Definition request_view_accepts (props required ro : list str) (closed : bool) (keys : list str) : bool :=
+  subset_keys (remove_names ro required) keys
+  && sends_no_readonly ro keys
+  && (negb closed || subset_keys keys (remove_names ro props)).
+Definition readonly_le1' (ro : list str) : bool := match ro with [] | [_] => true | _ => false end.
